@@ -6,7 +6,7 @@ Open Scope string_scope.
 Definition one (n : string) := filter (fun fd => String.eqb (fn_name fd) n) eon_program.
 Eval vm_compute in (report eon_program (one "_dSIS_effective_degree_")).
 Eval vm_compute in (report eon_program (one "EBCM_pref_mix_discrete")).
-Eval vm_compute in (report eon_program (one "basic_discrete_SIS")).
+Eval vm_compute in (report eon_program (one "SIS_pair_based")).
 Eval vm_compute in (report eon_program (one "EBCM_from_graph")).
 Eval vm_compute in (report eon_program (one "SIS_heterogeneous_pairwise")).
 Eval vm_compute in (report eon_program (one "Attack_rate_cts_time_from_graph")).
